@@ -879,7 +879,7 @@ Proof.
       - exists (lit_open ++ time ++ lit_level ++ level_text lvl ++ lit_after_level ++ display_taglist tags ++
                 44 :: [34; 116; 105; 109; 101; 95; 110; 115; 34]).
         unfold lit_time_ns. rewrite <- !app_assoc. cbn [app]. rewrite <- ?app_assoc. cbn [app]. reflexivity. }
-    destruct Hshape as [P ->]. unfold line_time_ns.
+    destruct Hshape as [P ->]. unfold line_time_ns. rewrite rev_append_rev, app_nil_r.
     rewrite !rev_app_distr. cbn [rev app].
     destruct (dec_spec ns) as (Hd & Hv & _).
     rewrite (take_digits_rev_spec (dec ns) 58 (rev P) [] Hd eq_refl), app_nil_r. exact Hv.
